@@ -51,6 +51,11 @@ def run(ck: Check, prog: Program) -> None:
     for need in ('add', 'view', 'merge', '_add_method', 'add_methods', 'get'):
         if need not in reg.methods:
             raise AnalysisError(f'MethodRegistry.{need} not found')
+    # name-composing helpers extracted from the registration operations are looked at as part of them
+    from ..inline import inlined_program
+    prog = inlined_program(prog, [f'{REG}.add', f'{REG}.view', f'{REG}.merge'],
+                           keep=[f'{REG}._add_method', f'{REG}.add_methods', f'{REG}.get'])
+    reg = prog.cls(REG)
     init = reg.methods['__init__']
     prefix_attr = None
     store_attr = None
@@ -127,9 +132,11 @@ def run(ck: Check, prog: Program) -> None:
                    f'view must register every member yielded by __methods__ under registry prefix + view prefix + member name; found '
                    f'{found[2] if found else "unrecognised"}')
     # ---- merge ------------------------------------------------------------------------------------
+    from ..flow import Flow
     merge = reg.methods['merge']
     ck.functions.add(merge.qualname)
     cfg = CFG(merge, prog)
+    fl = Flow(cfg)
     heads = [n for n in cfg.nodes if n.kind == 'next']
     okm = False
     why = 'loop over other.items() not recognised'
@@ -139,26 +146,58 @@ def run(ck: Check, prog: Program) -> None:
         tg = h.ast.target
         if norm(h.ast.iter) == f'{other}.items()' and isinstance(tg, ast.Tuple) and len(tg.elts) == 2:
             nv, mv = dotted(tg.elts[0]), dotted(tg.elts[1])
-            re_pre = [n for n in cfg.stmt_nodes() if isinstance(n.ast, ast.Assign) and dotted(n.ast.targets[0]) == nv]
-            form_ok = False
-            if len(re_pre) == 1:
-                v = re_pre[0].ast.value
-                gs = guard_edges(cfg, re_pre[0])
-                g_ok = any(classify_cond(prog, merge, g.src.ast).kind in ('truthy', 'is-none') and
-                           classify_cond(prog, merge, g.src.ast).subject == P for g in gs)
-                if isinstance(v, ast.JoinedStr):
-                    parts = [dotted(x.value) if isinstance(x, ast.FormattedValue) else x.value for x in v.values]
-                    form_ok = parts == [P, '.', nv] and g_ok
-                elif name_expr(v, merge) == [P, nv]:
-                    form_ok = True
-                why = f'name = {norm(v)} under {[norm(g.src.ast) + ":" + g.label for g in gs]}'
-            elif not re_pre:
-                why = 'names are not re-prefixed with the own prefix'
-            stores = [c for n in cfg.stmt_nodes() for c in calls_in(n) if dotted(c.func) == 'self._add_method']
-            copy_ok = len(stores) == 1 and isinstance(stores[0].args[0], ast.Call) and norm(stores[0].args[0]) == f'{mv}.copy(name={nv})'
-            okm = form_ok and copy_ok
-            if form_ok and not copy_ok:
-                why = f'stored value `{norm(stores[0].args[0]) if stores else "?"}` is not a copy of the method under the new name'
+            stores = [(n, c) for n in cfg.stmt_nodes() for c in calls_in(n) if dotted(c.func) == 'self._add_method']
+            why = 'the stored value is not a copy of the method under a new name'
+            if len(stores) == 1 and stores[0][1].args and isinstance(stores[0][1].args[0], ast.Call):
+                sn, sc_ = stores[0]
+                cp = sc_.args[0]
+                namev = None
+                if isinstance(cp.func, ast.Attribute) and cp.func.attr == 'copy' and dotted(cp.func.value) == mv and not cp.args:
+                    for kw in cp.keywords:
+                        if kw.arg == 'name':
+                            namev = kw.value
+                if namev is None:
+                    why = f'stored value `{norm(cp)}` is not `{mv}.copy(name=…)`'
+                else:
+                    seen_forms = set()
+                    bad = []
+                    for al in fl.alts(sn, namev):
+                        v = al.expr
+
+                        def p_state() -> Optional[bool]:
+                            for c, pol in al.guards:
+                                k = classify_cond(prog, merge, c)
+                                if k.subject == P and k.kind == 'truthy':
+                                    return (not k.negated) == pol
+                                if k.subject == P and k.kind == 'is-none':
+                                    return k.negated == pol
+                            return None
+                        if isinstance(v, ast.JoinedStr):
+                            parts = [dotted(x.value) if isinstance(x, ast.FormattedValue) else x.value for x in v.values]
+                            if parts == [P, '.', nv] and p_state() is True:
+                                seen_forms.add('prefixed')
+                            else:
+                                bad.append(f'{norm(v)} under {[("" if pol else "not ") + norm(c) for c, pol in al.guards]}')
+                        elif name_expr(v, merge) == [P, nv]:
+                            seen_forms |= {'prefixed', 'bare'}
+                        elif dotted(v) == nv:
+                            if p_state() is False:
+                                seen_forms.add('bare')
+                            else:
+                                bad.append(f'the bare name `{nv}` is used although the own prefix may be set')
+                        else:
+                            bad.append(f'{norm(v)[:60]}')
+                    if bad:
+                        why = 'name = ' + '; '.join(bad)
+                    elif seen_forms == {'bare'}:
+                        why = 'names are not re-prefixed with the own prefix'
+                    elif seen_forms != {'prefixed', 'bare'}:
+                        why = f'only the forms {sorted(seen_forms)} are produced'
+                    else:
+                        okm = True
+                        why = 'own prefix + "." + name when the prefix is set, the name itself otherwise'
+            elif len(stores) != 1:
+                why = f'expected one self._add_method call in the loop, found {len(stores)}'
     if not okm and 'not recognised' in why:
         raise AnalysisError(f'MethodRegistry.merge: {why}')
     ck.ob('NAME-COMPOSE', 'merge: every method of the other registry is copied under own prefix + "." + its name', okm, sample={'form': why})
